@@ -42,7 +42,7 @@ def observe_case(item):
     root = item["root"]
     cap = observe.Captured()
     try:
-        project, cap = observe.parse_and_correlate([root], cap=cap)
+        project, cap = observe.parse_and_correlate([root], settings_kw=item.get("settings"), cap=cap)
         table = observe.tree(project)
         err = None
     except BaseException as e:  # FORD must not fail on valid input
@@ -74,6 +74,15 @@ def run_model(seed, nstyles, keep_dir=None):
         root = os.path.join(base, sname)
         texts[sname] = write_project(root, files, st, layout.Layout(seed, plain=True))
         items.append({"root": root, "style": sname})
+    # the last random spelling again, (a) under the project option `lower: true` (names and keywords are lower-cased by FORD,
+    # character literals must keep their spelling), (b) laid out with continuations (also `token&` / `&  token` and breaks
+    # inside literals), `;`, comments and blank lines
+    items.append({"root": items[-1]["root"], "style": styles[-1][0] + "+lower", "settings": {"lower": True}})
+    texts[items[-1]["style"]] = texts[styles[-1][0]]
+    root = os.path.join(base, "laid_out")
+    lay = layout.Layout(seed + 17, plain=False, cont_p=0.3, comment_p=0.1, semi_p=0.1, lit_break_p=0.3)
+    texts["laid_out"] = write_project(root, files, fgen.Style(seed * 101 + 7), lay)
+    items.append({"root": root, "style": "laid_out"})
     return files, expected, items, texts, base
 
 
@@ -133,7 +142,9 @@ def main():
         rule="case = one generated project model (1-4 files; modules, submodules, programs, external procedures, block data; "
         "types with components/bindings/generics/finals; generic/abstract/explicit interfaces; enums, common, namelists; every "
         "intrinsic type and kind/len spelling; attribute forms) rendered in a canonical spelling + seeded random spellings "
-        "(keyword/identifier case, :: or not, attribute on declaration vs separate statement, kind/len spellings, END spellings). "
+        "(keyword/identifier case, :: or not, attribute on declaration vs separate statement, kind/len spellings, END spellings), "
+        "one of them also parsed with `lower: true`, plus one rendering laid out with continuations (with/without leading `&`, "
+        "`token&`/`&  token`, breaks inside character literals), `;`, ordinary comments and blank lines. "
         "Non-trivial: >=3 entity kinds and >=1 compared attribute beyond the name; distinct by hash of the rendered sources.",
         assumptions=[
             "the model is the ground truth; vf.fgen.expect_file is the reference table (independent of spelling)",
@@ -160,8 +171,8 @@ def main():
             run.inconc(f"{st}: {str(r)[-300:]}")
             continue
         run.case(key=r["hash"], nontrivial=r["nontrivial"], sample=r["sample"] if r["entities"] > 25 else None)
-        run.count("entities_compared", r["entities"] * nstyles)
-        run.count("renderings_parsed", nstyles)
+        run.count("entities_compared", r["entities"] * (nstyles + 2))
+        run.count("renderings_parsed", nstyles + 2)
         for k in r["kinds"]:
             run.seen("entity_kinds", k)
         for v in r["viol"]:
